@@ -144,6 +144,26 @@ func grammarMain(r *run.Runner, spans bool) {
 		s := pr.Uniform(" ")
 		s[0], s[len(s)-1] = " \n// lead\n", "\t// trail"
 		grammarCase(w, pr.Layout(s), spans, "layout")
+		// the program directly after Parse calls that fail on a part of it (cut inside brackets, inside the pipeline,
+		// inside an expression): a failing call leaves nothing behind (the replay keeps the preceding inputs)
+		for _, cut := range []int{len(pr.Lexemes) / 3, len(pr.Lexemes) / 2, len(pr.Lexemes) * 2 / 3, len(pr.Lexemes) - 1} {
+			if cut < 1 {
+				continue
+			}
+			var sb strings.Builder
+			for _, l := range pr.Lexemes[:cut] {
+				sb.WriteString(l)
+				sb.WriteByte(' ')
+			}
+			part := sb.String()
+			for _, tail := range []string{"", "( [ (", ") ]", "| |"} {
+				w.Begin("parse-failing-neighbour", part+tail)
+				if !w.Try(part+tail, func() { parser.Parse(part + tail) }) {
+					return
+				}
+				grammarCase(w, pr.Layout(pr.Uniform(" ")), spans, "after-failing-parse")
+			}
+		}
 		// the same text with white space added around it, directly after the text itself (a tree or a message that
 		// is remembered under a normalised text shows here; the replay keeps the preceding inputs)
 		for _, sep := range []string{" ", ""} {
